@@ -28,7 +28,7 @@ ASSUMPTIONS = [
     "Random / PowerOfTwo draws are not modelled: the model returns the set the draw is taken from; the implementation's picks (16 resp. 64 draws) must lie in it (Random) / be exactly it (PowerOfTwo's two candidates)",
     "time: one model second = 100000 real seconds; fail()/succeed()/can_try()/is_down() are the real ones; the random window length fail() draws is checked against its range and replaced (hook) by the case's; a clock advance ages every policy's last_try (hook); Instant::now() jitter (<< 1 model second per case) cannot change an outcome",
     "connect outcomes are environment data: a non-blocking tcp connect to a loopback address answers Ok (EINPROGRESS), to 255.255.255.255 fails synchronously (ENETUNREACH in tcp_v4_connect); the driver re-checks this on every connect",
-    "LoadMetric::ConnectionTime (PeakEWMA) and the contents of the 65537-slot production Maglev table are not modelled (the same rebuild code is compared slot by slot at table sizes 2..31)",
+    "LoadMetric::ConnectionTime (PeakEWMA, wall-clock data) is not modelled: with that metric the pick of LeastLoaded / PowerOfTwo is checked for membership in the candidate list only; the contents of the 65537-slot production Maglev table are not modelled (the same rebuild code is compared slot by slot at table sizes 2..31)",
 ]
 TRUSTED = ["translator props/c12.py:translate compares DEFAULT_TABLE_SIZE, DEFAULT_WEIGHT, the max_tries of Backend::new, the bodies of can_open / is_available / the fail-open filter and the statements of ExponentialBackoffPolicy::{fail,can_try} with lib/src/{backends,load_balancing,retry}.rs"]
 
@@ -172,6 +172,7 @@ class Gen:
         self.nh = 0
         self.ops = []
         self.kind = ["random", "random"]
+        self.timed = [False, False]
 
     def add(self, c, a=None, i=None):
         r = self.rng
@@ -200,7 +201,9 @@ class Gen:
         if kind == "maglev":
             size = r.choice(SIZES) if r.random() < 0.93 else 0
         self.kind[c] = kind
-        self.ops.append(["policy", c, kind, r.choice([0, 0, 1, 2]), size])
+        m = r.choice([0, 0, 1, 2, 3])      # 2: peak-EWMA connection time (pick checked for membership only), 3: default
+        self.timed[c] = m == 2 and kind in ("least", "p2c")
+        self.ops.append(["policy", c, kind, m, size])
 
     def handle(self):
         return self.rng.randrange(self.nh)
@@ -220,7 +223,7 @@ class Gen:
         if self.conn and r.random() < 0.22:
             # the entry points that select and then connect; only with a policy whose pick is not a random draw
             w = r.choice([1, 1, 2, 3, 5, 8])
-            det = self.kind[c] in ("rr", "least", "hrw", "maglev")
+            det = self.kind[c] in ("rr", "least", "hrw", "maglev") and not self.timed[c]
             y = r.random()
             if y < 0.4 and self.nh:
                 self.ops.append(["connect", self.handle(), w])
